@@ -64,10 +64,13 @@ def cases(tier, seed):
                       ("TruncNormal", ["0", "1", "-1", "1"], ["0", "1", "-1", "2"])]:
         out.append({"input": {"kind": "cachepair", "family": fam, "a": a, "b": b}, "K": 4})
     # location / scale rewriting
-    for fam, exprs in {"Normal": [["v", "1"], ["2*v + 1", "4"], ["v", "2"], ["0", "v"], ["v", "v"]],
-                       "Uniform": [["v", "v + 1"], ["0", "v"], ["-v", "2*v"]],
-                       "Laplace": [["v", "1"], ["1 - v", "2"]],
-                       "DistExp": [["1/v"], ["2/v"], ["1/(2*v)"]]}.items():
+    for fam, exprs in {"Normal": [["v", "1"], ["2*v + 1", "4"], ["v", "2"], ["0", "v"], ["v", "v"],
+                                  # variances that are not a single atom: fractions, products, sums, powers
+                                  ["v", "3/4"], ["v", "0.75"], ["v", "16/3"], ["v", "2*v"], ["v", "v + 1"], ["v", "v**2"],
+                                  ["v - 1", "3*v/2"], ["0", "v/2"], ["-v", "5/2"]],
+                       "Uniform": [["v", "v + 1"], ["0", "v"], ["-v", "2*v"], ["v/2", "3*v/2"], ["v - 1", "v + 3/4"], ["-3/4", "v"]],
+                       "Laplace": [["v", "1"], ["1 - v", "2"], ["v", "3/4"], ["v", "2*v"], ["0", "v + 1"], ["v/2", "v/3"]],
+                       "DistExp": [["1/v"], ["2/v"], ["1/(2*v)"], ["3/(4*v)"], ["v"], ["2*v"], ["v + 1"], ["3*v/4"]]}.items():
         for ex in exprs:
             out.append({"input": {"kind": "transform", "family": fam, "params": ex}, "K": 6})
     return out
@@ -332,7 +335,9 @@ def run_transform(case):
             continue
         dist = new_draw.distribution
         dparams = {"Normal": ["mu", "sigma2"], "Uniform": ["a", "b"], "Laplace": ["mu", "b"], "DistExp": ["lamb"]}[dname]
-        newps = [F(str(getattr(dist, a))) for a in dparams]
+        # the rewritten draw may keep parameters that depend on v (Laplace keeps its scale): evaluate them at v too
+        newps = [F(str(sympy.nsimplify(sympy.sympify(str(getattr(dist, a))).subs(sympy.Symbol("v"), sympy.Rational(v.numerator, v.denominator)))))
+                 for a in dparams]
         poly = sympy.sympify(str(new_assign.polynomials[0])).subs(sympy.Symbol("v"), sympy.Rational(v.numerator, v.denominator))
         u = sympy.Symbol(str(new_draw.variable))
         a = poly.subs(u, 0)
